@@ -1,4 +1,5 @@
 import Proofs.TermTrunc
+import Proofs.TermDraw
 /-!
 C09 — output lines are self-contained, well-formed terminal text.
 
@@ -153,5 +154,25 @@ theorem line_self_contained (r : Row) (hok : Row.ok r) (out : List Char) (h : r.
 example : (Row.unified [({ fg := some (.basic 4) }, .linked "file:///f".toList " 12 ".toList),
       ({ bg := some (.fixed 22) }, .plain "added".toList)] (.ansi { bg := some (.fixed 22) })).render.isSome = true := by
   decide
+
+/-- **Decorations** (`src/handlers/draw.rs`): the model `Draw` has the same output statements in
+the same order as every function of the current `draw.rs` (generated `drawShapes`, and the
+`get_draw_function` table), and every line any decoration shape draws — box, box with whisker and
+underline, underline, overline, under-and-over-line, none — around a self-contained text piece is
+self-contained: each `paint` is closed before the newline that follows it. -/
+theorem decoration_lines_self_contained :
+    (Generated.DrawShapes.drawShapes = Draw.modelledShapes ∧
+      Generated.DrawShapes.drawFunctionOf = Draw.modelledDrawFunctions) ∧
+    ∀ (s : Draw.Shape) (a : Draw.Args), DrawProofs.ArgsOk a →
+      ∀ l ∈ Draw.lines (Draw.draw s a), selfContained l :=
+  ⟨DrawProofs.shapes_as_modelled, DrawProofs.draw_lines_selfContained⟩
+
+example : Draw.lines (Draw.draw .boxWithUnderline
+    { text := "ab".toList, rawText := [], addendum := [], textWidth := 2, width := some 6,
+      textStyle := { fg := some (.basic 4) }, textRaw := false, deco := { fg := some (.basic 3), bold := true },
+      ch := ⟨'━', '┓', '┃', '┛', '┻'⟩ }) =
+    ["\x1b[1;33m━━\x1b[0m\x1b[1;33m┓\x1b[0m".toList,
+     "\x1b[34mab\x1b[0m\x1b[1;33m┃\x1b[0m".toList,
+     "\x1b[1;33m━━\x1b[0m\x1b[1;33m┻\x1b[0m\x1b[1;33m━━━\x1b[0m".toList, []] := by decide
 
 end C09
